@@ -293,3 +293,59 @@ package processor
 //@     invariant [numbers-read-so-far-are-covered] forall(k, 0, rangeindex+1, implies(cvHasFloat(values[k]) && !isNaN(cvFloat(values[k])), p.minVal <= cvFloat(values[k]) && cvFloat(values[k]) <= p.maxVal))
 //@   ensures [range-only-widens] p.minVal <= old(p.minVal) && p.maxVal >= old(p.maxVal)
 //@ end
+
+// C05 (limits take a prefix of the order; `sort 0` = no limit): the limit the
+// sort command hands to the sorter is the configured limit — never negative,
+// never smaller than asked (`sort 0` is parsed as math.MaxUint64).
+//@ func (*sortProcessor).Process
+//@   props C05
+//@   assumecalleerequires
+//@   site call inputIQR.Sort #1:
+//@     assert [limit-handed-to-the-sorter-is-the-configured-one] arg3 >= 0 && implies(p.options.Limit <= 9223372036854775807, uint64(arg3) == p.options.Limit) && implies(p.options.Limit > 9223372036854775807, arg3 == 9223372036854775807)
+//@ end
+//@ func (*sortProcessor).validate
+//@   props C05
+//@   modifies p.err
+//@ end
+//@ func (*sortProcessor).getSortColumns
+//@   props C05
+//@   pure
+//@ end
+
+// C05/C06 (the answer does not depend on the degree of query parallelism): the
+// planner may replicate the front of a pipeline into parallel chains only up to
+// the FIRST bottleneck command, and only if some command up to and including it
+// ignores its input order and none needs its input in order or generates data.
+// A bottleneck that does NOT ignore the order (the two-pass commands: `bin`
+// without span=, `fillnull` without fields) therefore stops the scan with "no
+// parallelism": each copy of it would learn its first-pass state from a
+// fragment of the stream.
+//@ func (*DataProcessor).DoesInputOrderMatter
+//@   props C05 C06
+//@   pure
+//@   ensures result == dp.inputOrderMatters
+//@ end
+//@ func (*DataProcessor).IgnoresInputOrder
+//@   props C05 C06
+//@   pure
+//@   ensures result == dp.ignoresInputOrder
+//@ end
+//@ func (*DataProcessor).IsBottleneckCmd
+//@   props C05 C06
+//@   pure
+//@   ensures result == dp.isBottleneckCmd
+//@ end
+//@ func (*DataProcessor).GeneratesData
+//@   props C05 C06
+//@   pure
+//@ end
+//@ func CanParallelSearch
+//@   props C05 C06
+//@   requires forall(k, 0, len(dataProcessors), dataProcessors[k] != nil)
+//@   loop 1:
+//@     invariant [no-bottleneck-among-the-scanned] forall(k, 0, rangeindex+1, !dataProcessors[k].isBottleneckCmd && !dataProcessors[k].inputOrderMatters)
+//@     invariant [can-split-only-if-some-scanned-command-ignores-order] implies(canSplit, exists(k, 0, rangeindex+1, dataProcessors[k].ignoresInputOrder))
+//@   ensures [split-only-at-the-first-bottleneck] implies(result0, 0 <= result1 && result1 < len(dataProcessors) && dataProcessors[result1].isBottleneckCmd && forall(k, 0, result1, !dataProcessors[k].isBottleneckCmd))
+//@   ensures [split-only-if-nothing-up-to-it-needs-order] implies(result0, forall(k, 0, result1+1, !dataProcessors[k].inputOrderMatters))
+//@   ensures [split-only-if-something-up-to-it-ignores-order] implies(result0, exists(k, 0, result1+1, dataProcessors[k].ignoresInputOrder))
+//@ end
